@@ -71,11 +71,12 @@ def has_fork(parents: tuple) -> bool:
 # ------------------------------------------------------------------------------------------------
 
 class Item:
-    __slots__ = ("label", "prev", "chash", "sig", "content", "cls", "right_content")
+    __slots__ = ("label", "prev", "chash", "sig", "content", "cls", "right_content", "prime")
 
-    def __init__(self, label, prev, chash, sig, content, cls, right_content=None) -> None:  # noqa: ANN001
+    def __init__(self, label, prev, chash, sig, content, cls, right_content=None, prime=None) -> None:  # noqa: ANN001
         self.label, self.prev, self.chash, self.sig, self.content, self.cls = label, prev, chash, sig, content, cls
         self.right_content = right_content
+        self.prime = prime      # None | "verify" | "owner-tree": what happened to the very object before it is offered
 
     @property
     def wire(self) -> bytes:
@@ -126,7 +127,7 @@ class Material:
     def _build_extra(self, kind: str, t: int, var: str) -> list[Item]:
         base = self.tree_items[t] if t < len(self.tree_items) else None
         tag = f"{kind}.{var}" if var else kind
-        if var not in ("nowhere", "chain", "on-genesis", "own-genesis"):
+        if var.split(":")[0] not in ("nowhere", "chain", "on-genesis", "own-genesis"):
             tag += f"(T{t})"
         if kind == "badsig":
             assert base is not None
@@ -144,7 +145,8 @@ class Material:
                 u = next(i for i in range(len(self.parents)) if i != t and i != self.parents[t])
                 other = self.tree_items[u]
                 return [Item(tag, ref.token_hash(*other.triple), base.chash, base.sig, None, "badsig")]
-        if kind == "foreign":
+        if kind in ("foreign", "foreign-primed"):
+            var, _, prime = var.partition(":")
             if var == "on-token":
                 assert base is not None
                 prev = ref.token_hash(*base.triple)
@@ -153,7 +155,8 @@ class Material:
             else:
                 prev = sha3_256(self.fk.pub().key_to_bin()).digest()
             tok = Token(prev, content=b"c16 foreign", private_key=self.fk)
-            return [Item(tag, tok.previous_token_hash, tok.content_hash, tok.signature, b"c16 foreign", "foreign")]
+            return [Item(tag, tok.previous_token_hash, tok.content_hash, tok.signature, b"c16 foreign", kind,
+                         prime=prime or None)]
         if kind == "dangling":
             if var == "nowhere":
                 tok = self._own(sha3_256(b"c16 nowhere").digest(), b"c16 dangling")
@@ -198,6 +201,15 @@ def extras_for(parents: tuple) -> list[tuple]:
     return out
 
 
+def primed_foreign_for(parents: tuple) -> list[tuple]:
+    """Every 'foreign' variant, as an object already verified under its real key in one of two legitimate ways."""
+    out: list = []
+    for mode in ("verify", "owner-tree"):
+        out += [("foreign-primed", t, f"on-token:{mode}") for t in range(len(parents))]
+        out += [("foreign-primed", 0, f"on-genesis:{mode}"), ("foreign-primed", 0, f"own-genesis:{mode}")]
+    return out
+
+
 TWO_ITEM = {("dangling", "chain"), ("dangling", "child-of-forged")}
 
 _MATERIAL: dict = {}
@@ -232,11 +244,22 @@ def shape_str(parents) -> str:  # noqa: ANN001
     return "{" + ", ".join(f"T{i}<-{'genesis' if p < 0 else 'T%d' % p}" for i, p in enumerate(parents)) + "}"
 
 
-def make_token(it: Item, pub) -> Token:  # noqa: ANN001
-    """A fresh object for every offer: the tree keeps and mutates what it is given."""
+def make_token(it: Item, mat: Material) -> Token:
+    """
+    A fresh object for every offer: the tree keeps and mutates what it is given.
+
+    "Primed" intruders of another key are the same Python object that has first been checked legitimately under its
+    real key (directly, or by being offered to a public-key-only tree of its real owner, where it merely waits).
+    """
     if it.content is None:
-        return Token.unserialize(it.wire, pub)
-    return Token.from_database_tuple(it.prev, it.sig, it.chash, it.content)
+        tok = Token.unserialize(it.wire, mat.pub)
+    else:
+        tok = Token.from_database_tuple(it.prev, it.sig, it.chash, it.content)
+    if it.prime == "verify":
+        tok.verify(mat.fk.pub())
+    elif it.prime == "owner-tree":
+        TokenTree(public_key=mat.fk.pub()).gather_token(tok)
+    return tok
 
 
 def _th(tok) -> bytes:  # noqa: ANN001
@@ -369,7 +392,7 @@ def evaluate(scn: dict, order: list, memo: dict | None = None) -> dict:
 
     if via == "gather":
         for k, it in enumerate(offered):
-            tok = make_token(it, mat.pub)
+            tok = make_token(it, mat)
             before_wait = len(tree.unchained)
             try:
                 r = tree.gather_token(tok)
@@ -433,7 +456,7 @@ def evaluate(scn: dict, order: list, memo: dict | None = None) -> dict:
         memo[vkey] = True
         for it in offered:
             h = ref.token_hash(*it.triple)
-            tok = make_token(it, mat.pub)
+            tok = make_token(it, mat)
             try:
                 v = tree.verify(tok)
                 path = tree.get_root_path(tok)
@@ -744,6 +767,13 @@ def build_scenarios(ctx: core.Ctx) -> tuple[list[dict], dict]:
                 for t in range(n):
                     for var in ("bare", "content"):
                         scns.append(scenario("cap-dup", cv, owner, foreign, p, [("dup", t, var)], cap=c))
+    # D': tokens of another key whose very object already passed a check under its real key
+    b["foreign_primed"] = {"unlabelled_n_max": 4 if T else 3, "primed_by": ["Token.verify(real key)",
+                                                                              "gather_token on the real owner's tree"]}
+    for n in range(1, b["foreign_primed"]["unlabelled_n_max"] + 1):
+        for p in unlabelled_shapes(n):
+            for e in primed_foreign_for(p):
+                scns.append(scenario("foreign-primed", cv, owner, foreign, p, [e]))
     # G: other curves (other signature and chunk lengths)
     b["other_curves"] = {"curves": ["very-low", "medium"] if T else ["very-low"], "labelled_n_max": 4 if T else 3,
                          "intruder_n_max": 2}
